@@ -300,23 +300,44 @@ fn thread_id() -> usize {
 /// Unsteered: `readers` threads call read-only methods in a loop while one thread writes.
 pub fn stress(readers: usize, millis: u64) {
     let mut comp = build(Version::V4);
+    // siblings whose names are compared on the slow path (not ASCII, equal length in UTF-16 units, differing in
+    // one character): every reader looks a different one up, and every answer is checked
+    let probes: Vec<(String, u64)> = ["ø-data", "é-data", "ü-data", "ß-data", "Ω-data", "я-data", "ñ-data", "ç-data"]
+        .iter().enumerate().map(|(i, n)| (format!("/m/p/{}", n), 10 + 7 * i as u64)).collect();
+    for (p, len) in &probes {
+        comp.create_stream(p).unwrap().write_all(&pattern(*len as usize, 5)).unwrap();
+    }
+    comp.flush().unwrap();
+    let walk_count = comp.walk().count();
+    let m_p_count = comp.read_storage("/m/p").unwrap().count();
     let mut stream = comp.open_stream("/s1").unwrap();
     let comp = Arc::new(comp);
     let stop = Arc::new(AtomicBool::new(false));
+    let wrong: Arc<std::sync::Mutex<Vec<String>>> = Arc::new(std::sync::Mutex::new(Vec::new()));
     let (done_tx, done_rx) = mpsc::channel::<u64>();
     for r in 0..readers {
         let c = comp.clone();
         let stop = stop.clone();
         let tx = done_tx.clone();
+        let probes = probes.clone();
+        let wrong = wrong.clone();
         std::thread::spawn(move || {
             let mut n = 0u64;
+            let mut say = |m: String| { let mut w = wrong.lock().unwrap(); if w.len() < 5 { w.push(m); } };
             while !stop.load(Ordering::SeqCst) {
-                match (n + r as u64) % 5 {
-                    0 => { c.walk().count(); }
-                    1 => { c.read_storage("/m").map(|it| it.count()).ok(); }
-                    2 => { c.exists("/m/k/s"); }
-                    3 => { c.entry("/s1").ok(); }
-                    _ => { c.root_entry(); }
+                match (n + r as u64) % 8 {
+                    0 => { let k = c.walk().count(); if k != walk_count { say(format!("walk() listed {} entries, the file has {}", k, walk_count)); } }
+                    1 => { let k = c.read_storage("/m/p").map(|it| it.count()).unwrap_or(usize::MAX); if k != m_p_count { say(format!("read_storage(/m/p) listed {} entries, the storage has {}", k, m_p_count)); } }
+                    2 => { if !c.exists("/m/k/s") { say("exists(/m/k/s) is false".into()); } }
+                    3 => { if c.entry("/s1").map(|e| e.name().to_string()).ok() != Some("s1".to_string()) { say("entry(/s1) is not s1".into()); } }
+                    4 => { c.root_entry(); }
+                    _ => {
+                        let (p, len) = &probes[((n / 8) as usize * 3 + r * 5) % probes.len()];
+                        match c.entry(p) {
+                            Ok(e) => if e.len() != *len || !p.ends_with(e.name()) || !c.is_stream(p) { say(format!("entry({}) answered name {} len {} (the stream has {} bytes)", p, e.name(), e.len(), len)); },
+                            Err(e) => say(format!("entry({}) failed: {}", p, e)),
+                        }
+                    }
                 }
                 n += 1;
             }
@@ -361,6 +382,9 @@ pub fn stress(readers: usize, millis: u64) {
         }
     }
     finished_flag.store(true, Ordering::SeqCst);
+    for w in wrong.lock().unwrap().iter() {
+        println!("wrong {}", w);
+    }
     println!("{} {}", if finished == readers + 1 { "completed" } else { "deadlock" }, total);
     std::process::exit(0);
 }
